@@ -47,6 +47,7 @@ func (c emuConfig) asMap() map[string]interface{} {
 	d.UseNumber()
 	d.Decode(&m)
 	delete(m, "plain_ips")
+	delete(m, "file_syntax")
 	return m
 }
 
@@ -143,6 +144,10 @@ func genAnyConfig(t *rapid.T) emuConfig {
 	c.Service = drawInt(t, "ue_service", math.MinInt64, math.MaxInt64)
 	c.Release = drawInt(t, "ue_pdu_release", math.MinInt64, math.MaxInt64)
 	c.Dereg = drawInt(t, "ue_deregistration", math.MinInt64, math.MaxInt64)
+	if rapid.IntRange(0, 7).Draw(t, "same_ports") == 3 {
+		c.StgNgapPort = c.AmfNgapPort
+	}
+	c.Syntax = drawSyntax(t)
 	return c
 }
 
